@@ -216,6 +216,15 @@ impl World {
     }
 }
 
+/// Element counts of the typed slice requests: small, or so large that `count * size_of::<T>()`
+/// does not fit a machine word (the byte count would wrap to a small number).
+fn count32(x: u64) -> usize {
+    if x >= 1_000_000 { (1usize << 62) + (x as usize % 1000) } else { x as usize % 5000 }
+}
+fn count128(x: u64) -> usize {
+    if x >= 1_000_000 { (1usize << 60) + (x as usize % 300) } else { x as usize % 300 }
+}
+
 fn sel(n: u64, len: usize) -> usize {
     if len == 0 { 0 } else { (n as usize) % len }
 }
@@ -252,9 +261,9 @@ fn run_history(case: &Value, w: &mut World) -> V {
                     ((g(2) as usize).min(isize::MAX as usize + 1 - (1usize << g(3).min(18))), 1usize << g(3).min(18), g(4) == 1) // the largest size a Layout of this alignment can have
                 } else {
                     match g(2) % 3 {
-                        0 => (8, 8, false),                        // alloc_uninit::<u64>()
-                        1 => (4 * (g(3) as usize % 5000), 4, false), // alloc_uninit_slice::<u32>(n)
-                        _ => (16 * (g(3) as usize % 300), 8, false), // alloc_uninit_slice::<[u64; 2]>(n)
+                        0 => (8, 8, false),                                        // alloc_uninit::<u64>()
+                        1 => (count32(g(3)).saturating_mul(4), 4, false),          // alloc_uninit_slice::<u32>(n)
+                        _ => (count128(g(3)).saturating_mul(16), 8, false),        // alloc_uninit_slice::<[u64; 2]>(n)
                     }
                 };
                 let before = w.us[u].off;
@@ -271,12 +280,12 @@ fn run_history(case: &Value, w: &mut World) -> V {
                     catch_unwind(AssertUnwindSafe(|| match g(2) % 3 {
                         0 => (std::ptr::from_mut(h.alloc_uninit::<u64>()) as usize, 8),
                         1 => {
-                            let s = h.alloc_uninit_slice::<u32>(g(3) as usize % 5000);
-                            (s.as_mut_ptr() as usize, s.len() * 4)
+                            let s = h.alloc_uninit_slice::<u32>(count32(g(3)));
+                            (s.as_mut_ptr() as usize, s.len().saturating_mul(4))
                         }
                         _ => {
-                            let s = h.alloc_uninit_slice::<[u64; 2]>(g(3) as usize % 300);
-                            (s.as_mut_ptr() as usize, s.len() * 16)
+                            let s = h.alloc_uninit_slice::<[u64; 2]>(count128(g(3)));
+                            (s.as_mut_ptr() as usize, s.len().saturating_mul(16))
                         }
                     }))
                     .map_err(|_| ())
@@ -739,7 +748,7 @@ impl Engine for C11 {
             let op = if c < 38 {
                 json!(["alloc", a, gen_size(&mut r, maxcap), if r.chance(4) { r.range(13, 18) } else { r.below(13).min(if r.chance(80) { 7 } else { 12 }) }, u64::from(r.chance(20)), r.next() & 0xff])
             } else if c < 43 {
-                json!(["uninit", a, r.below(3), r.below(6000)])
+                json!(["uninit", a, r.below(3), if r.chance(6) { 1_000_000 + r.below(2000) } else { r.below(6000) }])
             } else if c < 58 {
                 json!(["grow", a, r.below(64), r.pick(&[0u64, 1, 8, 100, 5000, 65536, 70000, 400_000]), u64::from(r.chance(25))])
             } else if c < 62 {
